@@ -44,6 +44,7 @@ func (r *reapCtl) ReconnectTimeout(m *serf.Member, timeout time.Duration) time.D
 	return timeout
 }
 
+var slowConsumer bool // C16: no coalescing, application channel of capacity 1 that nobody reads until the end
 var pipeline bool   // C16 mode: coalescers + snapshot on, observe emitted (log) vs received (EventCh)
 var scratchDir string
 
@@ -76,6 +77,7 @@ func newRun(nn int, rng *rand.Rand) *run {
 		r.names = append(r.names, pool[p[i-1]])
 	}
 	r.reap = &reapCtl{failed: map[string]bool{}, left: map[string]bool{}, recon: 24 * time.Hour, tomb: 48 * time.Hour}
+	var small chan serf.Event
 	nd, err := quiet.NewNode(r.net, r.names[0], nil, func(c *serf.Config) {
 		c.ReapInterval = 3 * time.Millisecond
 		c.ReconnectTimeoutOverride = r.reap
@@ -86,12 +88,20 @@ func newRun(nn int, rng *rand.Rand) *run {
 			c.UserCoalescePeriod = 40 * time.Millisecond
 			c.UserQuiescentPeriod = 20 * time.Millisecond
 			c.SnapshotPath = fmt.Sprintf("%s/snap-%d-%d", scratchDir, rng.Int63(), time.Now().UnixNano())
+			if slowConsumer {
+				c.CoalescePeriod, c.QuiescentPeriod, c.UserCoalescePeriod, c.UserQuiescentPeriod = 0, 0, 0, 0
+				small = make(chan serf.Event, 1)
+				c.EventCh = small
+			}
 		}
 	})
 	if err != nil {
 		h.Die("create: %v", err)
 	}
 	r.n = nd
+	if small != nil {
+		nd.Events = small
+	}
 	r.trs = []*quiet.Transport{nd.Tr}
 	for i := 1; i < nn; i++ {
 		r.trs = append(r.trs, r.net.NewTransport(r.names[i]))
@@ -459,6 +469,9 @@ func (r *run) step(st h.Step) map[string]interface{} {
 		if p := st.Int("p"); p > 0 {
 			time.Sleep(time.Duration(p) * time.Millisecond)
 		}
+		if slowConsumer { // the application does not read yet
+			return map[string]interface{}{"em": r.emittedSince(), "rc": [][]int{}, "drained": false}
+		}
 		return map[string]interface{}{"em": r.emittedSince(), "rc": r.receivedNow(), "drained": false}
 	}
 	return r.observe(q)
@@ -483,6 +496,7 @@ func main() {
 	in := flag.String("in", "", "schedules ndjson")
 	out := flag.String("out", "", "trace ndjson")
 	nn := flag.Int("nn", 3, "number of names (self included)")
+	flag.BoolVar(&slowConsumer, "slow", false, "C16: with -pipeline, no coalescing and a capacity-1 application channel read only at the end")
 	flag.BoolVar(&pipeline, "pipeline", false, "C16: observe the event pipeline (coalescing + snapshot on)")
 	flag.StringVar(&scratchDir, "dir", os.TempDir(), "scratch directory for snapshots")
 	flag.Parse()
